@@ -10,7 +10,7 @@ RULE = (
     "inputs = example corpus + generated family (shapes, wrap, DLM) + one-step mutations (duplicated / blank / "
     "case-variant mnemonics, unit .1IN, emptied values, lengthened fields); every input x every writer configuration "
     "in the k-deviation ball of (version, wrap, fmt, column_fmt, len_numeric_field, spacer, lhs_spacer, data_width, "
-    "mnemonics_header, data_section_header): l1=read(x), t1=write(l1), l2=read(t1), t2=write(l2), l3=read(t2) ... up to "
+    "mnemonics_header, data_section_header), and under mnemonic_case lower/preserve for three configurations: l1=read(x), t1=write(l1), l2=read(t1), t2=write(l2), l3=read(t2) ... up to "
     "4 cycles; canonical content (numeric mode) of cycle n+1 must equal cycle n for n >= 2; inputs whose first read or "
     "first write raises are counted and skipped; non-trivial = input completed at least two cycles"
 )
@@ -46,6 +46,10 @@ def points(tier):
             if big and ci > 0:
                 break
             pts.append({"tier": tier, "input": i, "name": name, "cfg": cfg})
+        if not big:
+            for case in ("lower", "preserve"):
+                for cfg in (cfgs[0], dict(cfgs[0], version=1.2), dict(cfgs[0], version=2.0, wrap=True)):
+                    pts.append({"tier": tier, "input": i, "name": name, "cfg": cfg, "case": case})
     return pts
 
 
@@ -64,7 +68,8 @@ def check_point(pt):
                          % (text[:3000], roundtrip.kwargs_for(cfg, 3))}
 
     try:
-        l1 = lasio.read(text)
+        case = pt.get("case", "upper")
+        l1 = lasio.read(text, mnemonic_case=case)
         t1 = roundtrip.write_text(l1, cfg)
     except Exception as e:
         return [], None, "skipped:first-read-or-write-raises", {"skipped": 1}, 1
@@ -74,7 +79,7 @@ def check_point(pt):
     written = [t1 if len(t1) < 4000 else t1[:4000] + "..."]
     for cycle in range(2, CYCLES + 1):
         try:
-            l = lasio.read(t)
+            l = lasio.read(t, mnemonic_case=pt.get("case", "upper"))
         except Exception as e:
             return [V("own-output-unreadable", "read(write(...)) succeeds (cycle %d)" % cycle,
                       "%s: %s" % (type(e).__name__, str(e)[:160]), written)], True, "unreadable", {}, evals
